@@ -328,8 +328,10 @@ def rt_addsub(cfg, a, b, c, d):
     R = _R()
     x, y = R(a, b), R(c, d)
     A, B, C, D = lz(a), lz(b), lz(c), lz(d)
+    absb = b if b > 0 else -b
     return z3.And(_exact(x + y, R, A * D + C * B, B * D), _exact(x - y, R, A * D - C * B, B * D),
-                  _exact(-x, R, -A, B), _exact(abs(x), R, z3.If(A >= 0, A, -A), B), _exact(+x, R, A, B))
+                  _exact(-x, R, -A, B), _exact(abs(x), R, z3.If(A >= 0, A, -A), absb), _exact(+x, R, A, B),
+                  lz(x._denominator) > 0, lz(y._denominator) > 0)
 
 
 def rt_mul(cfg, a, b, c, d):
@@ -361,14 +363,16 @@ def rt_cmp(cfg, a, b, c, d):
     R = _R()
     x, y = R(a, b), R(c, d)
     A, B, C, D = lz(a), lz(b), lz(c), lz(d)
-    L, Rr = A * D, C * B
+    sg = 1 if (b > 0) == (d > 0) else -1        # denominators are concrete (realised) and may be negative
+    L, Rr = A * D * sg, C * B * sg
     m = R.min([x, y])
     if type(m) is not R:
         return FALSE
     mn, md = _rv(m)
+    sb, sd = (1 if b > 0 else -1), (1 if d > 0 else -1)
     return z3.And(_b(x == y) == (L == Rr), _b(x != y) == (L != Rr), _b(x < y) == (L < Rr), _b(x <= y) == (L <= Rr),
-                  _b(x > y) == (L > Rr), _b(x >= y) == (L >= Rr),
-                  z3.Or(mn * B == A * md, mn * D == C * md), mn * B <= A * md, mn * D <= C * md)
+                  _b(x > y) == (L > Rr), _b(x >= y) == (L >= Rr), md > 0,
+                  z3.Or(mn * B == A * md, mn * D == C * md), mn * B * sb <= A * md * sb, mn * D * sd <= C * md * sd)
 
 
 RATIONAL_LAWS = {
